@@ -399,6 +399,16 @@ def run(ctx: Ctx) -> None:
         hists.append((base, "verbatim", name, cfg))
         for k in range(40, len(base), 40 if thorough else 160):
             hists.append((base[:k], "prefix", name, cfg))
+    # histories that REWIND (two pieces of a log spliced as they are, a block of lines repeated): a packet arrives after one of the same slot
+    # that carries a later timestamp -- nothing is re-timed here
+    for name, base, cfg in syss:
+        for _ in range(4 if thorough else 2):
+            if len(base) < 60:
+                continue
+            m = rng.randrange(40, min(len(base), 400))
+            n = rng.randrange(0, m - 20)
+            k = min(len(base), n + rng.randrange(15, 120))
+            hists.append((base[:m] + base[n:k], "rewind", name, cfg))
     for lines, kind, name, cfg in hists:
         eav = rng.random() < 0.5 if kind != "crafted-313F" else False
         try:
